@@ -7,8 +7,12 @@ package main
 // A scenario is a DESCRIPTION both sides interpret (the model: coq/model/DoLTS.v [compile]; here:
 // a real ch.Query against a scripted server):
 //
-//   (sc <kind sel|ins|str> <compressed t|f> <gate column t|f> <rows0> (<OnInput results ok|eof|eoft|err>...)
-//       ((<avail> <packet kind> [ok|err])...) <cut: n | (k t|f)> <write fault: n | (k t|f)>)
+//   (sc <kind sel|ins|str|selx> <compressed t|f> <gate column t|f> <rows0> (<OnInput results ok|eof|eoft|err>...)
+//       ((<avail> <packet kind> [ok|err])...) <cut: n | (k t|f)> <write fault: n | (k t|f)> [(<cwf|cle>...)])
+//
+// selx: a SELECT whose external data cannot be encoded (sendQuery itself fails).  The optional tenth element lists
+// environment faults: cwf = the Write of the one-byte Cancel packet fails, cle = conn.Close reports an error
+// although it closed (crypto/tls).
 //
 // Case line of a gated run:   do <sc> (<coarse schedule: s r rt w m env>...)
 // Plan line (from the model): (go e..) (rel <role> <kind> <action> e..) (env e..) ...   e = <role>g | <role>x
@@ -105,6 +109,8 @@ type c04Scen struct {
 	cutIn  bool
 	wf     int
 	wfPart bool
+	cwf    bool // the Write of the Cancel packet fails
+	cle    bool // conn.Close closes and reports an error
 }
 
 func c04HasCb(kind string) bool {
@@ -128,12 +134,23 @@ func (s *c04Scen) String() string {
 	if s.wf >= 0 {
 		wf = fmt.Sprintf("(%d %s)", s.wf, bsym(s.wfPart))
 	}
-	return fmt.Sprintf("(sc %s %s %s %d (%s) (%s) %s %s)", s.kind, bsym(s.comp), bsym(s.gate), s.rows0,
-		strings.Join(s.rounds, " "), strings.Join(sp, " "), cut, wf)
+	flags := ""
+	if s.cwf || s.cle {
+		var fl []string
+		if s.cwf {
+			fl = append(fl, "cwf")
+		}
+		if s.cle {
+			fl = append(fl, "cle")
+		}
+		flags = " (" + strings.Join(fl, " ") + ")"
+	}
+	return fmt.Sprintf("(sc %s %s %s %d (%s) (%s) %s %s%s)", s.kind, bsym(s.comp), bsym(s.gate), s.rows0,
+		strings.Join(s.rounds, " "), strings.Join(sp, " "), cut, wf, flags)
 }
 
 func c04ScenOfSx(x *c04Sx) (*c04Scen, error) {
-	if !x.isL || len(x.list) != 9 || x.list[0].atom != "sc" {
+	if !x.isL || (len(x.list) != 9 && len(x.list) != 10) || x.list[0].atom != "sc" {
 		return nil, errors.New("bad scenario")
 	}
 	l := x.list
@@ -160,6 +177,21 @@ func c04ScenOfSx(x *c04Sx) (*c04Scen, error) {
 	if l[8].isL {
 		s.wf, _ = strconv.Atoi(l[8].list[0].atom)
 		s.wfPart = l[8].list[1].atom == "t"
+	}
+	if len(l) == 10 {
+		if !l[9].isL {
+			return nil, errors.New("bad scenario flags")
+		}
+		for _, f := range l[9].list {
+			switch f.atom {
+			case "cwf":
+				s.cwf = true
+			case "cle":
+				s.cle = true
+			default:
+				return nil, errors.New("unknown scenario flag " + f.atom)
+			}
+		}
 	}
 	return s, nil
 }
@@ -261,6 +293,17 @@ func (g *c04GateCol) WriteColumn(w *proto.Writer) {
 	}
 	g.d.WriteColumn(w)
 }
+// the external-data column of a selx scenario with a gate: its Prepare is a gate, then fails like ColEnum's own
+type c04PrepCol struct {
+	*proto.ColEnum
+	ctl *c04Ctl
+}
+
+func (p *c04PrepCol) Prepare() error {
+	p.ctl.gate("col", nil)
+	return p.ColEnum.Prepare()
+}
+
 func (g *c04GateCol) set(rows int) {
 	g.d = g.d[:0]
 	for i := 0; i < rows; i++ {
@@ -298,6 +341,12 @@ var errC04Callback = errors.New("c04: callback failed")
 func c04NewRun(sc *c04Scen, readTimeout time.Duration) (*c04Run, error) {
 	r := &c04Run{sc: sc, ctl: newC04Ctl(), lastPkt: -1}
 	r.conn = newC04Conn(r.ctl)
+	if sc.cle {
+		r.conn.closeErr = true
+	}
+	if sc.cwf {
+		r.conn.cancelFails = true // gated runs: the plan says so at the gate; this is for a run that left its plan
+	}
 	for _, p := range sc.script {
 		r.pkts = append(r.pkts, c04PacketBytes(p.kind, sc.comp))
 	}
@@ -347,6 +396,11 @@ func (r *c04Run) query() ch.Query {
 			e.Append("no-such-member")
 			q.ExternalTable = "ext"
 			q.ExternalData = proto.Input{{Name: "e", Data: e}}
+			if sc.gate {
+				// steered runs: the failing Prepare is a gate of the sender (the model's AGate before AEncFail), so that
+				// the instant of the failure relative to the other goroutines is the plan's choice
+				q.ExternalData = proto.Input{{Name: "e", Data: &c04PrepCol{ColEnum: e, ctl: r.ctl}}}
+			}
 		}
 		return q
 	}
@@ -651,7 +705,7 @@ func (r *c04Run) observe() c04Obs {
 		case c04IsCancel(w.data) && !w.failed:
 			t = "c"
 		case w.failed && len(w.data) == 0:
-			if w.afterC {
+			if w.afterC && !w.cancelW {
 				o.emptyFailAfterC++
 			}
 			continue // a failed write that accepted nothing leaves no bytes
